@@ -179,7 +179,7 @@ def run_case(case):
                               'child_only': True, 'set': ['arrived.%d' % i],
                               'wait_for': ['arrived.%d' % j
                                            for j in first_wave],
-                              'timeout': 25, 'tag': 'arrival'})
+                              'timeout': 45, 'tag': 'arrival'})
             pos = perm.index(i)
             if pos > 0:
                 before = perm[pos - 1]
@@ -187,7 +187,7 @@ def run_case(case):
                       'tearDown': 'layer.tearDown:' + name,
                       'report': 'report'}[hold]
                 h = {'point': pt, 'child_only': True,
-                     'wait_for': ['reaped.' + full[before]], 'timeout': 40,
+                     'wait_for': ['reaped.' + full[before]], 'timeout': 30,
                      'tag': 'finish'}
                 if hold == 'report':
                     h['layer'] = full[i]
@@ -233,8 +233,26 @@ def run_case(case):
             C('arrival_barriers_passed')
         finish_tmo = [e for e in tmo if e not in arrival_tmo]
         if finish_tmo:
+            # A child waited in vain for the layer that has to finish before
+            # it.  If that layer had not even been started although fewer
+            # than N children were alive, the runner left a free slot unused:
+            # "up to N layers do make progress at the same time" is violated.
+            e0 = finish_tmo[0]
+            awaited = [m[len('reaped.'):] for m in e0.get('missing', [])
+                       if str(m).startswith('reaped.')]
+            t0 = e0['t']
+            alive_then = sum(1 for e in ev if e['k'] == 'spawn' and
+                             e['t'] < t0) - \
+                sum(1 for e in ev if e['k'] == 'reap' and e['t'] < t0)
+            started = [e for e in ev if e['k'] == 'spawn' and
+                       e.get('layer') in awaited and e['t'] < t0]
+            if awaited and not started and alive_then < N:
+                V('ready-layer-not-started-although-a-slot-was-free',
+                  'par-free-slot-unused', awaited=awaited,
+                  alive=alive_then)
+                return {'viol': viol, 'evals': 1, 'counters': counters}
             return {'inconclusive': 'finish-order barrier timed out: %r'
-                    % (finish_tmo[0],), 'counters': counters}
+                    % (e0,), 'counters': counters}
         # (a) equivalence
         par_ran = common.ran_counts(ev, 'test.setUp')
         if par_ran != seq_ran:
